@@ -354,6 +354,31 @@ Proof.
 Qed.
 End Sm9Der.
 
+(* ---------------------------------------------------------------- password-encrypted key containers
+   The four loaders sm9_{sign,enc}_{master_,}key_info_decrypt_from_der share one helper
+   (sm9_private_key_info_decrypt_from_der) which, after sm9_private_key_info_from_der has refused
+   keys longer than SM9_MAX_PRIVATE_KEY_SIZE, copies the decrypted key into the CALLER's local
+   buffer - before the caller looks at the algorithm identifiers, so a container of any kind
+   reaches the copy.  [info_helper_copy cap len]: Fault = the memcpy overruns a buffer of cap bytes. *)
+Definition SM9_MAX_PRIVATE_KEY_SIZE : N := 204.
+Definition info_helper_copy (cap prikey_len : N) : res N :=
+  if SM9_MAX_PRIVATE_KEY_SIZE <? prikey_len then Err
+  else if cap <? prikey_len then Fault
+  else Ok prikey_len.
+(* capacities of the callers' buffers [uint8_t prikey[..]] in src/sm9_key.c, in the order
+   sign master key, sign key, enc master key, enc key.  Source-derived: props/C17/run.py re-reads
+   the declarations (macros resolved by the harness) on every run and compares them with this table. *)
+Definition info_caller_caps : list N := [204; 512; 512; 512].
+Theorem info_copy_within_capacity :
+  Forall (fun cap => forall l, info_helper_copy cap l <> Fault) info_caller_caps.
+Proof.
+  unfold info_caller_caps. repeat constructor; intros l; unfold info_helper_copy, SM9_MAX_PRIVATE_KEY_SIZE;
+    destruct (N.ltb_spec 204 l); try congruence; match goal with |- context [?c <? l] => destruct (N.ltb_spec c l) end; try congruence; lia.
+Qed.
+(* a buffer of SM9_ENC_MASTER_KEY_MAX_SIZE = 105 bytes would be overrun by a 204-byte user key *)
+Example info_copy_small_buffer_refuted : info_helper_copy 105 204 = Fault.
+Proof. reflexivity. Qed.
+
 (* sm9_z256_point_from_uncompressed_octets on 65 octets: tag 04, x < p, y < p, y^2 = x^3 + 5 *)
 Definition sm9_p : N := 0xb640000002a3a6f1d603ab4ff58ec74521f2934b1a7aeedbe56f9b27e351457d.
 Definition g1_octets_ok (o : list N) : bool :=
